@@ -92,3 +92,32 @@ def oracle_reference(R, tier, seed):
             if worst > 1e-9: _fail(O2, "C05:AeroPoint:normal-velocity-nonzero", desc, normal_velocity_over_v=worst, meshes=[m.tolist() for m in meshes])
             else: O2["ok"] += 1
         R.mark("c05", kinds, rep)
+
+
+def oracle_one_panel_signs(R, tier, seed):
+    """The conclusions of the sign-pinning theorems (Real/SignPin.v: C05_one_panel_*) on the implementation: one flat
+    rectangular panel, spanwise index increasing with y -> influence coefficient > 0, circulation = - v sin(a) cos(b) / AIC
+    (negative at positive alpha), lift force positive at positive alpha."""
+    O = R.oracle("AeroPoint.one-panel-sign-conventions")
+    rng = gen.stable_rng(seed, "c05-signs")
+    n = 6 if tier == "quick" else 40
+    for k in range(n):
+        c = float(10 ** rng.uniform(-1, 1)); b = float(10 ** rng.uniform(-1, 1.3))
+        alpha = float(rng.uniform(0.05, 15)) * (1 if k % 3 else -1); beta = float(rng.choice([0.0, rng.uniform(-15, 15)]))
+        v = float(rng.uniform(10, 250)); rho = float(rng.uniform(0.3, 1.3))
+        mesh = np.zeros((2, 2, 3)); mesh[1, :, 0] = c; mesh[:, 1, 1] = b
+        mesh = mesh + rng.normal(size=3) * [3, 0, 1] + [0, float(rng.uniform(-5, 5)), 0]       # anywhere in space (C06 translation invariance)
+        p = aero.run(aero.build_aero([aero.aero_surface(mesh, name="s0", symmetry=False)], v=v, alpha=alpha, beta=beta, rho=rho))
+        G = float(aero.g(p, "aero.aero_states.circulations")[0]); A = float(np.ravel(aero.g(p, "aero.aero_states.mtx"))[0])
+        Fz = float(np.ravel(aero.g(p, "aero.aero_states.s0_sec_forces"))[2])
+        a = np.deg2rad(alpha); bb = np.deg2rad(beta)
+        desc = {"chord": c, "span": b, "alpha": alpha, "beta": beta, "v": v, "rho": rho, "circulation": G, "aic": A, "Fz": Fz, "mesh": mesh.tolist()}
+        O["cases"] += 1
+        bad = None
+        if not A > 0: bad = "influence-coefficient-not-positive"
+        elif abs(G - (-v * np.sin(a) * np.cos(bb) / A)) > 1e-9 * abs(G): bad = "circulation-is-not-minus-v-sin-alpha-over-aic"
+        elif not (G * np.sin(a) < 0): bad = "circulation-sign"
+        elif not (Fz * np.sin(a) > 0): bad = "lift-force-sign"
+        if bad: _fail(O, "C05:AeroPoint:one-panel-" + bad, desc)
+        else: O["ok"] += 1
+        R.mark("c05-signs", alpha > 0, beta != 0)
